@@ -74,6 +74,12 @@ def run(chk, searching=False):
     programs.append(("tls", [("LOGIN", None)] + words))
     programs.append(("starttls", [("LOGIN", None), ("SELECT", "INBOX"), ("SELECT", "Nope"), ("FETCH", "1 (FLAGS)"), ("STORE", "1 +FLAGS (\\Seen)"),
                                  ("SELECT", "INBOX"), ("EXAMINE", "Roles/%s/INBOX" % P.R2), ("FETCH", "1 (FLAGS)"), ("EXPUNGE", ""), ("STARTTLS", ""), ("LOGIN", None)]))
+    # fault paths: a message whose stored parts are lost; every line still gets exactly one tagged completion
+    faulty = [("FETCH", "1:* (BODY.PEEK[])"), ("UID", "FETCH 1:* (BODY.PEEK[])"), ("UID", "FETCH 1:* (RFC822.SIZE ENVELOPE BODYSTRUCTURE)"), ("FETCH", "1 (BODY[1] RFC822)"),
+              ("UID", "FETCH 1 (BODY[HEADER])"), ("SEARCH", "BODY MKALICE"), ("UID", "SEARCH TEXT MKALICE"), ("COPY", "1 Sent"), ("UID", "COPY 1:* Trash"),
+              ("STORE", "1 +FLAGS (\\Seen)"), ("UID", "STORE 1 +FLAGS (Junk)"), ("EXPUNGE", ""), ("CLOSE", "")]
+    programs.append(("tls", [("LOGIN", None), ("SELECT", "INBOX"), ("XDAMAGE", "user_db_1")] + faulty))
+    programs.append(("tls", [("LOGIN", None), ("SELECT", "Roles/%s/INBOX" % P.R1), ("XDAMAGE", "role_db_1")] + faulty))
     sess = P.run_sessions(chk, programs)
     # an account whose LOGIN the server refuses although the backend says 200
     # (admin-provisioned, password not initialised): the session must stay unauthenticated
